@@ -187,7 +187,7 @@ def run(eng: Engine, ck: Check):
         free = []
         if idx_name:
             for n_, bd_ in pfind(nd.node, f'min($cand - set({idx_name}))'):
-                cand = expand_aliases(nd, ast.parse(bd_['cand'], mode='eval').body)
+                cand = expand_aliases(nd, ast.parse(bd_['cand'], mode='eval').body, depth=1)
                 if pat.match(cand, pat.compile_pattern(f'set(range(min({idx_name}), num(max({idx_name}) + 2)))')[0]) is not None:
                     free.append(n_)
         facts['next index = min(set(range(min, max + 2)) - used): the smallest unused index'] = len(free) == 1
